@@ -155,8 +155,23 @@ def match_regex(contract: Teal, regex: Regex) -> Tuple[List[List[Instruction]], 
 
     matches: List[List[Instruction]] = []
     covered: Set[Instruction] = set()
+    visited: Set[Instruction] = set()
 
-    _find_instructions(label, regex.instructions, set(), matches, covered)
+    _find_instructions(label, regex.instructions, visited, matches, covered)
+
+    # The depth-first search marks an instruction as covered only if the search below it finds a
+    # match: an instruction whose way to a match goes through an already visited instruction (the
+    # second branch into a join, the body of a loop) is missed. Complete the set by walking
+    # backwards from the matches over the instructions reachable from the label.
+    worklist = [match[0] for match in matches]
+    reaches_match: Set[Instruction] = set()
+    while worklist:
+        ins = worklist.pop()
+        for prev_ins in ins.prev:
+            if prev_ins in visited and prev_ins not in reaches_match:
+                reaches_match.add(prev_ins)
+                worklist.append(prev_ins)
+    covered |= reaches_match
 
     return matches, covered
 
